@@ -27,7 +27,7 @@ RULES = {
 for _n in (1, 2, 3, 4):
     RULES["path%d" % _n] = _HEAD + (_HOSTS % b"+") + (b"(p:[^\\|]+\\|){%d})" % _n)
 
-OP_TIMEOUT = float(os.environ.get("VERIF_OP_TIMEOUT", "20"))
+OP_TIMEOUT = float(os.environ.get("VERIF_OP_TIMEOUT", "10"))
 
 
 class OpTimeout(BaseException):
@@ -218,6 +218,9 @@ class Impl(object):
         """returns (answer, nwrites, fingerprint); an operation that does not return within OP_TIMEOUT seconds
         (an edit of the code under test can make a walk loop for ever) is reported as `err other Timeout`"""
         del WRITE_LOG[:]
+        if getattr(self, "poisoned", False) and not line.startswith("init "):
+            return "err other Timeout", 0, FNV_INIT          # an earlier call of this session never returned
+        self.poisoned = False
         signal.signal(signal.SIGALRM, _on_alarm)
         signal.setitimer(signal.ITIMER_REAL, OP_TIMEOUT)
         try:
@@ -226,6 +229,7 @@ class Impl(object):
             ans = "err traph"
         except OpTimeout:
             ans = "err other Timeout"
+            self.poisoned = True
         except MemoryError:
             ans = "err other MemoryError"
         except Exception as e:  # noqa
